@@ -1249,3 +1249,96 @@ def gen_storages(src, attempt):
         return "Definition storage_methods : list (list N * list (list N * sop)) :=\n  [%s]." % ';\n   '.join(rows)
     attempt(out, 'ser/flavors.rs:storages', go, 'storage_methods')
     return '\n'.join(out) + '\n'
+
+
+# ----------------------------------------------------------------------------------------
+# GenIoReaders.v: SlidingBuffer and the two reader flavours of de/flavors.rs, by templates up to
+# renaming of locals; the holes (comparison, error kinds) become a record
+SLIDING_T = {
+    'new': "Self { cursor : $sli . as_mut_ptr ( ) , end : unsafe { $sli . as_ptr ( ) . add ( $sli . len ( ) ) } , _pl : PhantomData , }",
+    'size': "( self . end as usize ) - ( self . cursor as usize )",
+    'take_n': ("let $remain = ( self . end as usize ) - ( self . cursor as usize ) ; "
+               "let $buff = if $remain ?CMP $ct { return Err ( Error :: ?ERR ) ; } else { "
+               "unsafe { let $sli = core :: slice :: from_raw_parts_mut ( self . cursor , $ct ) ; "
+               "self . cursor = self . cursor . add ( $ct ) ; $sli } } ; Ok ( $buff )"),
+    'complete': ("let $remain = ( self . end as usize ) - ( self . cursor as usize ) ; "
+                 "unsafe { Ok ( core :: slice :: from_raw_parts_mut ( self . cursor , $remain ) ) }"),
+}
+READER_T = {
+    'new': "Self { $reader , buff : SlidingBuffer :: new ( $buff ) , }",
+    'pop': ("let mut $val = [ 0 ; 1 ] ; self . reader . read_exact ( & mut $val ) . map_err ( | _ | Error :: ?POPERR ) ? ; "
+            "Ok ( $val [ 0 ] )"),
+    'size_hint': "Some ( self . buff . size ( ) )",
+    'try_take_n': ("let $buff = self . buff . take_n ( $ct ) ? ; "
+                   "self . reader . read_exact ( $buff ) . map_err ( | _ | Error :: ?TAKEERR ) ? ; Ok ( $buff )"),
+    'finalize': "let $buf = self . buff . complete ( ) ? ; Ok ( ( self . reader , $buf ) )",
+}
+CMP_COQ = {'<': 'CLt', '<=': 'CLe', '>': 'CGt', '>=': 'CGe', '==': 'CEq', '!=': 'CNe'}
+
+
+def gen_io_readers(src, attempt, match_template, tokenize):
+    out = ["(* GENERATED by tools/translate.py from the Rust sources. Do not edit. *)",
+           "From PV Require Import Base VarintParams IoReaderDecl.", "Open Scope N_scope.", "",
+           "(* source/postcard/src/de/flavors.rs: SlidingBuffer, EIOReader, IOReader *)"]
+    de = src('source/postcard/src/de/flavors.rs')
+
+    def params_are(sig, cap, names, what):
+        ps = params_of(sig)
+        for hole, idx in names:
+            if idx >= len(ps) or cap.get(hole) != ps[idx]:
+                raise Untranslatable("%s: `%s` is not parameter %d" % (what, cap.get(hole), idx))
+
+    def sliding():
+        m = re.search(r"impl<'de>\s*SlidingBuffer<'de>", de)
+        if not m:
+            raise Untranslatable("impl SlidingBuffer not found")
+        blk = block_after(de[m.start():], r"impl<'de>\s*SlidingBuffer<'de>[^{]*")
+        caps = {}
+        for name, tmpl in SLIDING_T.items():
+            sig, body = find_fn(blk, name)
+            toks = [t[1] for t in tokenize(body)]
+            caps[name] = match_template(toks, tmpl.split(), 'de/flavors.rs:SlidingBuffer::' + name)
+            if name == 'take_n':
+                params_are(sig, caps[name], [('$ct', 0)], 'SlidingBuffer::take_n')
+            if name == 'new':
+                params_are(sig, caps[name], [('$sli', 0)], 'SlidingBuffer::new')
+        meths = re.findall(r'\bfn\s+(\w+)', blk)
+        if sorted(meths) != sorted(SLIDING_T):
+            raise Untranslatable("SlidingBuffer defines %s" % meths)
+        c = caps['take_n']['?CMP']
+        if c not in CMP_COQ:
+            raise Untranslatable("SlidingBuffer::take_n compares with `%s`" % c)
+        return "Definition sliding_src : sliding_params := {| sl_cmp := %s; sl_err := %s |}." % (CMP_COQ[c], caps['take_n']['?ERR'])
+    attempt(out, 'de/flavors.rs:SlidingBuffer', sliding, 'sliding_src')
+
+    for coq, struct, modname in (('eioreader_src', 'EIOReader', 'pub mod eio'), ('ioreader_src', 'IOReader', 'pub mod io {\n        use super::super::Flavor')):
+        def reader(struct=struct, modname=modname, coq=coq):
+            k = de.find(modname)
+            if k < 0:
+                k = [m.start() for m in re.finditer(r'pub mod io\b', de)][-1]
+            text = de[k:]
+            m = re.search(r"impl<'de,\s*T>\s*Flavor<'de>\s+for\s+%s<'de,\s*T>" % struct, text)
+            if not m:
+                raise Untranslatable("impl Flavor for %s not found" % struct)
+            blk = block_after(text[m.start():], r"impl<'de,\s*T>\s*Flavor<'de>\s+for\s+%s<'de,\s*T>[^{]*" % struct)
+            caps = {}
+            for name in ('pop', 'size_hint', 'try_take_n', 'finalize'):
+                sig, body = find_fn(blk, name)
+                toks = [t[1] for t in tokenize(body)]
+                caps[name] = match_template(toks, READER_T[name].split(), 'de/flavors.rs:%s::%s' % (struct, name))
+                if name == 'try_take_n':
+                    params_are(sig, caps[name], [('$ct', 0)], struct + '::try_take_n')
+            meths = re.findall(r'\bfn\s+(\w+)', blk)
+            if sorted(meths) != ['finalize', 'pop', 'size_hint', 'try_take_n']:
+                raise Untranslatable("%s defines %s" % (struct, meths))
+            m2 = re.search(r"impl<'de,\s*T>\s*%s<'de,\s*T>" % struct, text)
+            if not m2:
+                raise Untranslatable("impl %s not found" % struct)
+            blk2 = block_after(text[m2.start():], r"impl<'de,\s*T>\s*%s<'de,\s*T>[^{]*" % struct)
+            sig, body = find_fn(blk2, 'new')
+            toks = [t[1] for t in tokenize(body)]
+            cap = match_template(toks, READER_T['new'].split(), 'de/flavors.rs:%s::new' % struct)
+            params_are(sig, cap, [('$reader', 0), ('$buff', 1)], struct + '::new')
+            return "Definition %s : reader_params := {| rp_pop_err := %s; rp_take_err := %s |}." % (coq, caps['pop']['?POPERR'], caps['try_take_n']['?TAKEERR'])
+        attempt(out, 'de/flavors.rs:' + struct, reader, coq)
+    return '\n'.join(out) + '\n'
